@@ -7,7 +7,7 @@ cd /verif
 ALL="C01 C02 C03 C04 C05 C06 C07 C08 C09 C10 C11 C12 C13 C14 C15 C16 C17 C18 C19 C20"
 for p in ${@:-$ALL}; do
   for f in seeded/benign-small/$p-*.diff; do
-    out=$(tools/probe.sh $f $ALL 2>&1 | grep -E "^(FAIL|UNDECIDED|ANCHOR-LOST|PATCH)" | cut -c1-300 | sort -u)
+    out=$(tools/probe.sh $f $ALL 2>&1 | grep -E "^(FAIL|UNDECIDED|ANCHOR-LOST|PATCH|BROKEN)" | cut -c1-300 | sort -u)
     if [ -n "$out" ]; then echo "#### $f ALARM"; echo "$out"; else echo "#### $f silent"; fi
   done
 done
